@@ -12,6 +12,7 @@ import (
 	dtlsflight "github.com/pion/dtls/v3/internal/flight"
 	dtlsflight12 "github.com/pion/dtls/v3/internal/flight/flight12"
 	dtlsstate "github.com/pion/dtls/v3/internal/state"
+	"github.com/pion/dtls/v3/internal/verifhook"
 	"github.com/pion/dtls/v3/pkg/protocol/alert"
 	"github.com/pion/dtls/v3/pkg/protocol/handshake"
 )
@@ -130,6 +131,7 @@ func (s *fsm12) prepare(ctx context.Context, conn Conn) (State, error) {
 		return StateErrored, err
 	}
 
+	pkts = verifhook.FilterFlight(s.cfg, s.state.IsClient, s.currentFlight.String(), s.state, s.cache, pkts)
 	s.flights = pkts
 	epoch := s.cfg.InitialEpoch
 	nextEpoch := epoch
